@@ -49,6 +49,7 @@ class EquivalenceDB:
             and self.weights == other.weights
             and self.verified_roots == other.verified_roots
             and self.vertices == other.vertices
+            and self._one_way_vertices == other._one_way_vertices
         )
 
     def __getitem__(self, comb_class: int) -> int:
